@@ -53,6 +53,27 @@ Fixpoint consistent (sizes : list (string * Z)) (cs : list (list tok)) : Prop :=
 Fixpoint items_of (cs : list (list tok)) : list gitem :=
   match cs with [] => [] | c :: r => match item_of c with Some i => i :: items_of r | None => items_of r end end.
 
+Lemma loop_head fuel a b r sizes : loop (S fuel) (TW "[HEAD]" :: TW a :: TW b :: r) sizes = loop fuel r sizes.
+Proof. reflexivity. Qed.
+Lemma loop_atts fuel s n r sizes : 0 <= n ->
+  loop (S fuel) (TW "[ATTS]" :: TW s :: TI n :: r) sizes
+  = match loop fuel r ((s, n) :: sizes) with Some l => Some (GAtts _ _ s n :: l) | None => None end.
+Proof.
+  intros Hn. cbn [GeoRef.ref_geo_loop]. change (String.eqb "[ATTS]" "[HEAD]") with false.
+  change (String.eqb "[ATTS]" "[ATTS]") with true. cbn iota. destruct (n <? 0) eqn:E; [lia|]. reflexivity.
+Qed.
+Lemma loop_attr fuel s nm ty es dim vals r sizes n :
+  lookup_size s sizes = Some n -> 0 <= dim -> length vals = Z.to_nat (n * dim) ->
+  loop (S fuel) (TW "[ATTR]" :: TW s :: TW nm :: TW ty :: TI es :: TI dim :: vals ++ r) sizes
+  = match loop fuel r sizes with Some l => Some (GAttr s nm ty es dim vals :: l) | None => None end.
+Proof.
+  intros Hl Hd Hlen. cbn [GeoRef.ref_geo_loop]. change (String.eqb "[ATTR]" "[HEAD]") with false.
+  change (String.eqb "[ATTR]" "[ATTS]") with false. change (String.eqb "[ATTR]" "[ATTR]") with true. cbn iota.
+  rewrite Hl. destruct (dim <? 0) eqn:E; [lia|]. rewrite <- Hlen, app_length.
+  destruct (Nat.ltb_spec (length vals + length r) (length vals)) as [?|_]; [lia|].
+  rewrite firstn_app_all, skipn_app_all. reflexivity.
+Qed.
+
 Lemma loop_consistent (cs : list (list tok)) : forall sizes extra, consistent sizes cs ->
   loop (S (length (concat cs)) + extra) (concat cs) sizes = Some (items_of cs).
 Proof.
@@ -63,24 +84,18 @@ Proof.
   destruct c as [|[n|?|?|nm] c]; try contradiction.
   - (* ATTS *)
     destruct c as [|? ?]; [|contradiction]. destruct H as (-> & Hn & H).
-    cbn [concat app length items_of item_of]. cbn [Nat.add GeoRef.ref_geo_loop].
-    change (String.eqb "[ATTS]" "[HEAD]") with false. change (String.eqb "[ATTS]" "[ATTS]") with true. cbn iota.
-    destruct (n <? 0) eqn:E; [lia|].
-    match goal with |- context [loop ?f (concat cs) _] => replace f with (S (length (concat cs)) + (2 + extra))%nat by lia end.
-    rewrite (IH _ _ H). reflexivity.
+    cbn [concat app length items_of item_of].
+    replace (S (S (S (S (length (concat cs))))) + extra)%nat with (S (S (length (concat cs)) + (2 + extra)))%nat by lia.
+    rewrite loop_atts by assumption. rewrite (IH _ _ H). reflexivity.
   - (* ATTR *)
     destruct c as [|[?|?|?|ty] c]; try contradiction.
     destruct c as [|[es|?|?|?] c]; try contradiction.
     destruct c as [|[dim|?|?|?] vals]; try contradiction.
     destruct H as (-> & Hd & (n & Hl & Hlen) & H).
-    cbn [concat app length items_of item_of]. cbn [Nat.add GeoRef.ref_geo_loop].
-    change (String.eqb "[ATTR]" "[HEAD]") with false. change (String.eqb "[ATTR]" "[ATTS]") with false.
-    change (String.eqb "[ATTR]" "[ATTR]") with true. cbn iota.
-    rewrite Hl. destruct (dim <? 0) eqn:E; [lia|]. rewrite <- Hlen.
-    rewrite app_length. destruct (Nat.ltb_spec (length vals + length (concat cs)) (length vals)) as [?|_]; [lia|].
-    rewrite firstn_app_all, skipn_app_all.
-    match goal with |- context [loop ?f (concat cs) _] => replace f with (S (length (concat cs)) + (4 + length vals + extra))%nat by lia end.
-    rewrite (IH _ _ H). reflexivity.
+    cbn [concat app length items_of item_of]. rewrite app_length.
+    replace (S (S (S (S (S (S (S (length vals + length (concat cs)))))))) + extra)%nat
+      with (S (S (length (concat cs)) + (5 + length vals + extra)))%nat by lia.
+    rewrite (loop_attr _ s nm ty es dim vals _ sizes n Hl Hd Hlen). rewrite (IH _ _ H). reflexivity.
 Qed.
 
 (* a block of attributes of the set declared last does not change the sizes *)
@@ -121,38 +136,114 @@ Proof.
   split; [reflexivity|]. split; [assumption|]. now rewrite map_length.
 Qed.
 
+Lemma to_nat_zlen_mul {A} (l : list A) (k : Z) : 0 <= k -> Z.to_nat (zlen l * k) = (length l * Z.to_nat k)%nat.
+Proof. intros Hk. unfold zlen. rewrite Z2Nat.inj_mul by lia. now rewrite Nat2Z.id. Qed.
+Lemma length_flat_map_const {A B} (f : A -> list B) k l : (forall x, length (f x) = k) -> length (flat_map f l) = (length l * k)%nat.
+Proof. intros H. induction l as [|a l IH]; [reflexivity|]. cbn [flat_map length]. rewrite app_length, H, IH. reflexivity. Qed.
 Lemma len_flat_v3 (V : list (F * F * F)) : length (flat_map (fun v => map fl (v3 v)) V) = Z.to_nat (zlen V * 3).
-Proof. induction V as [|[[x y] z] V IH]; [reflexivity|]. cbn [flat_map v3 map app length]. rewrite IH. unfold zlen. cbn [length]. lia. Qed.
+Proof. rewrite (to_nat_zlen_mul V 3) by lia. apply length_flat_map_const. intros [[x y] z]. reflexivity. Qed.
 Lemma len_flat_e2 (E : list (Z * Z)) : length (flat_map (fun e => [ti (fst e); ti (snd e)]) E) = Z.to_nat (zlen E * 2).
-Proof. induction E as [|e E IH]; [reflexivity|]. cbn [flat_map app length]. rewrite IH. unfold zlen. cbn [length]. lia. Qed.
+Proof. rewrite (to_nat_zlen_mul E 2) by lia. apply length_flat_map_const. reflexivity. Qed.
 Lemma len_ptrs p (els : list (list Z)) : length (map ti (ptrs_from p els)) = Z.to_nat (zlen els * 1).
-Proof. rewrite map_length. revert p. induction els as [|e els IH]; intros p; [reflexivity|]. cbn [ptrs_from length]. rewrite IH. unfold zlen. cbn [length]. lia. Qed.
+Proof.
+  rewrite map_length, (to_nat_zlen_mul els 1) by lia. change (Z.to_nat 1) with 1%nat. rewrite Nat.mul_1_r. revert p.
+  induction els as [|e els IH]; intros p; [reflexivity|]. cbn [ptrs_from length]. now rewrite IH.
+Qed.
 Lemma len_concat (els : list (list Z)) : length (map ti (concat els)) = Z.to_nat (sum_len els * 1).
-Proof. rewrite map_length. unfold sum_len, zlen. lia. Qed.
+Proof. rewrite map_length. unfold sum_len. rewrite (to_nat_zlen_mul (concat els) 1) by lia. change (Z.to_nat 1) with 1%nat. now rewrite Nat.mul_1_r. Qed.
 Lemma n_cell_facets_nonneg (cells : list (list Z)) : 0 <= n_cell_facets cells.
-Proof. induction cells as [|c cells IH]; [reflexivity|]. cbn. unfold geo_exp_cell_facets. destruct (zlen c =? 4); lia. Qed.
+Proof.
+  unfold n_cell_facets. induction cells as [|c cells IH]; [cbn; lia|]. cbn [fold_right]. unfold geo_exp_cell_facets at 1.
+  destruct (zlen c =? 4); lia.
+Qed.
 
-Ltac one_attr vals := constructor; [do 5 eexists; split; [reflexivity|]; split; [lia|]; vals | ].
+Definition sized_chunk (s : string) (n : Z) (c : list tok) : Prop :=
+  exists nm ty es dim vals, c = attr_chunk s nm ty es dim vals /\ 0 <= dim /\ length vals = Z.to_nat (n * dim).
+
+Lemma fixed_sized (h : list string * Z * Z) s nm ty es dim (vals : list tok) n :
+  geo_attr_head h = [TW "[ATTR]"; TW s; TW nm; TW ty; TI es; TI dim] -> 0 <= dim -> length vals = Z.to_nat (n * dim) ->
+  sized_chunk s n (geo_attr_head h ++ vals).
+Proof. intros -> Hd Hl. exists nm, ty, es, dim, vals. repeat split; assumption. Qed.
+
+Lemma opt_sized (b : bool) s n (c : list tok) : sized_chunk s n c -> Forall (sized_chunk s n) (if b then [] else [c]).
+Proof. intros H. destruct b; repeat constructor. exact H. Qed.
+Lemma opt_sized' (b : bool) s n (c : list tok) : (b = true -> sized_chunk s n c) -> Forall (sized_chunk s n) (if b then [c] else []).
+Proof. intros H. destruct b; repeat constructor. now apply H. Qed.
+
+Lemma group_ok s n (l1 l2 rest : list (list tok)) : 0 <= n -> Forall (sized_chunk s n) l1 -> Forall (sized_chunk s n) l2 ->
+  (forall sizes, consistent sizes rest) -> forall sizes, consistent sizes ([TW "[ATTS]"; TW s; TI n] :: l1 ++ l2 ++ rest).
+Proof.
+  intros Hn H1 H2 Hr sizes. rewrite app_assoc. apply consistent_set; [assumption | apply Forall_app; now split | apply Hr].
+Qed.
+Lemma group_ok_end s n (l1 l2 : list (list tok)) : 0 <= n -> Forall (sized_chunk s n) l1 -> Forall (sized_chunk s n) l2 ->
+  forall sizes, consistent sizes ([TW "[ATTS]"; TW s; TI n] :: l1 ++ l2).
+Proof.
+  intros Hn H1 H2 sizes. rewrite <- (app_nil_r l2). apply group_ok; try assumption. intros; exact I.
+Qed.
 
 Theorem geo_ref_reads (m : mesh) : geo_sizes_ok m ->
   ref_read_geo (print_geo m) = Some (items_of (tl (geo_chunks m))).
 Proof.
   intros (HV & HE & HF & HFC & HC & HCC & HCF & Hadj).
   unfold GeoRef.ref_read_geo, Geo.print_geo, Geo.geo_chunks.
-  cbn [app concat tl]. cbn [map geo_exp_head Geo.gw app length].
-  cbn [GeoRef.ref_geo_loop]. change (String.eqb "[HEAD]" "[HEAD]") with true. cbn iota.
-  match goal with |- loop ?f (concat ?cs) [] = _ => replace f with (S (length (concat cs)) + 2)%nat by (cbn [length]; lia) end.
-  apply loop_consistent.
-  (* vertices *)
-  cbn [app]. apply (consistent_set (nth 1 geo_exp_atts_V ""%string) (zlen (mV m)) [] (_ :: map (geo_user_attr (user_cont 0)) (aV m)));
-    [unfold zlen; lia | | ].
-  { one_attr ltac:(apply len_flat_v3). apply (users_sized 0). exact HV. }
-  (* edges *)
-  assert (HEb : forall sizes rest, consistent sizes rest ->
-     consistent sizes ((if isnil (mE m) then [] else
-        [geo_atts geo_exp_atts_E (zlen (mE m)); geo_attr_head geo_exp_attr_edge_vertex ++ flat_map (fun e => [ti (fst e); ti (snd e)]) (mE m)]
-        ++ map (geo_user_attr (user_cont 1)) (aE m)) ++ rest)).
-  { intros sizes rest Hr. destruct (isnil (mE m)); [exact Hr|]. cbn [app]. rewrite <- app_assoc.
-    admit. }
-Abort.
+  match goal with |- loop _ (concat ([?h] ++ ?R)) _ = Some (items_of (tl ([?h] ++ ?R))) =>
+    change (concat ([h] ++ R)) with (h ++ concat R); change (tl ([h] ++ R)) with R; set (cs := R) end.
+  change (map (@Geo.gw Ftxt Ctxt) geo_exp_head ++ concat cs) with (TW (nth 0 geo_exp_head "") :: TW (nth 1 geo_exp_head "") :: TW (nth 2 geo_exp_head "") :: concat cs)%string.
+  cbn [length]. replace (S (S (S (S (length (concat cs)))))) with (S (S (length (concat cs)) + 2))%nat by lia.
+  change (TW (nth 0 geo_exp_head ""%string)) with (TW "[HEAD]"). rewrite loop_head.
+  apply loop_consistent. subst cs.
+  (* cells *)
+  assert (HCall : forall sizes, consistent sizes (if isnil (mC m) then [] else
+        [geo_atts geo_exp_atts_C (zlen (mC m))]
+        ++ (if forallb (len_is 4) (mC m) then [] else [geo_attr_head geo_exp_attr_cell_ptr ++ map ti (ptrs_from 0 (mC m))])
+        ++ map (geo_user_attr (user_cont 4)) (aC m)
+        ++ [geo_atts geo_exp_atts_CC (sum_len (mC m)); geo_attr_head geo_exp_attr_cc_vertex ++ map ti (concat (mC m))]
+        ++ map (geo_user_attr (user_cont 5)) (aCC m)
+        ++ [geo_atts geo_exp_atts_CF (n_cell_facets (mC m))]
+        ++ (if has_adjacency m then [geo_attr_head geo_exp_attr_cf_adj ++ map ti (mAdj m)] else [])
+        ++ map (geo_user_attr (user_cont 6)) (aCF m))).
+  { destruct (isnil (mC m)); [intros; exact I|].
+    apply (group_ok (nth 1 geo_exp_atts_C ""%string) (zlen (mC m))
+             (if forallb (len_is 4) (mC m) then [] else [geo_attr_head geo_exp_attr_cell_ptr ++ map ti (ptrs_from 0 (mC m))])
+             (map (geo_user_attr (user_cont 4)) (aC m)));
+      [unfold zlen; lia | apply opt_sized; eapply fixed_sized; [reflexivity | lia | apply len_ptrs] | apply (users_sized 4); exact HC | ].
+    apply (group_ok (nth 1 geo_exp_atts_CC ""%string) (sum_len (mC m)) [geo_attr_head geo_exp_attr_cc_vertex ++ map ti (concat (mC m))]);
+      [unfold sum_len, zlen; lia | repeat constructor; eapply fixed_sized; [reflexivity | lia | apply len_concat] | apply (users_sized 5); exact HCC | ].
+    apply (group_ok_end (nth 1 geo_exp_atts_CF ""%string) (n_cell_facets (mC m))
+             (if has_adjacency m then [geo_attr_head geo_exp_attr_cf_adj ++ map ti (mAdj m)] else [])
+             (map (geo_user_attr (user_cont 6)) (aCF m)));
+      [apply n_cell_facets_nonneg
+      | apply opt_sized'; intros Ha; eapply fixed_sized; [reflexivity | lia | rewrite map_length, Z.mul_1_r; now apply Hadj]
+      | apply (users_sized 6); exact HCF]. }
+  (* faces *)
+  assert (HFall : forall sizes, consistent sizes ((if isnil (mF m) then [] else
+        [geo_atts geo_exp_atts_F (zlen (mF m))]
+        ++ (if forallb (len_is 3) (mF m) then [] else [geo_attr_head geo_exp_attr_facet_ptr ++ map ti (ptrs_from 0 (mF m))])
+        ++ map (geo_user_attr (user_cont 2)) (aF m)
+        ++ [geo_atts geo_exp_atts_FC (sum_len (mF m)); geo_attr_head geo_exp_attr_fc_vertex ++ map ti (concat (mF m))]
+        ++ map (geo_user_attr (user_cont 3)) (aFC m))
+      ++ (if isnil (mC m) then [] else
+        [geo_atts geo_exp_atts_C (zlen (mC m))]
+        ++ (if forallb (len_is 4) (mC m) then [] else [geo_attr_head geo_exp_attr_cell_ptr ++ map ti (ptrs_from 0 (mC m))])
+        ++ map (geo_user_attr (user_cont 4)) (aC m)
+        ++ [geo_atts geo_exp_atts_CC (sum_len (mC m)); geo_attr_head geo_exp_attr_cc_vertex ++ map ti (concat (mC m))]
+        ++ map (geo_user_attr (user_cont 5)) (aCC m)
+        ++ [geo_atts geo_exp_atts_CF (n_cell_facets (mC m))]
+        ++ (if has_adjacency m then [geo_attr_head geo_exp_attr_cf_adj ++ map ti (mAdj m)] else [])
+        ++ map (geo_user_attr (user_cont 6)) (aCF m)))).
+  { destruct (isnil (mF m)); [exact HCall|]. rewrite <- !app_assoc.
+    apply (group_ok (nth 1 geo_exp_atts_F ""%string) (zlen (mF m))
+             (if forallb (len_is 3) (mF m) then [] else [geo_attr_head geo_exp_attr_facet_ptr ++ map ti (ptrs_from 0 (mF m))])
+             (map (geo_user_attr (user_cont 2)) (aF m)));
+      [unfold zlen; lia | apply opt_sized; eapply fixed_sized; [reflexivity | lia | apply len_ptrs] | apply (users_sized 2); exact HF | ].
+    apply (group_ok (nth 1 geo_exp_atts_FC ""%string) (sum_len (mF m)) [geo_attr_head geo_exp_attr_fc_vertex ++ map ti (concat (mF m))]);
+      [unfold sum_len, zlen; lia | repeat constructor; eapply fixed_sized; [reflexivity | lia | apply len_concat] | apply (users_sized 3); exact HFC | exact HCall]. }
+  (* edges, then vertices *)
+  apply (group_ok (nth 1 geo_exp_atts_V ""%string) (zlen (mV m)) [geo_attr_head geo_exp_attr_point ++ flat_map (fun v => map fl (v3 v)) (mV m)]);
+    [unfold zlen; lia | repeat constructor; eapply fixed_sized; [reflexivity | lia | apply len_flat_v3] | apply (users_sized 0); exact HV | ].
+  destruct (isnil (mE m)); [exact HFall|]. intros sizes. rewrite <- !app_assoc.
+  apply (group_ok (nth 1 geo_exp_atts_E ""%string) (zlen (mE m)) [geo_attr_head geo_exp_attr_edge_vertex ++ flat_map (fun e => [ti (fst e); ti (snd e)]) (mE m)]);
+    [unfold zlen; lia | repeat constructor; eapply fixed_sized; [reflexivity | lia | apply len_flat_e2] | apply (users_sized 1); exact HE | exact HFall].
+Qed.
+
 End ProofsGeoRef.
